@@ -140,6 +140,16 @@ CLAIMED = {
             "Trusted: CrossHair + z3; serializer replaced by a snapshot recorder (byte codec is C01), deserializer by a stub that "
             "hands over the prepared Message, circuit clock by a harness clock.",
             "DESIGN.md §1 C19"),
+    "C20": ("CrossHair/z3 symbolic execution of the real chunker / chunk handlers (Xfer, XferManager, TransferManager) with a symbolic "
+            "payload and a symbolic arrival schedule; path-exhaustive exploration of solver-chosen field combinations of inventory "
+            "items / categories / objects through legacy text, legacy LLSD and AIS LLSD (symbolic U32/S32 values through the LLSD "
+            "forms); animations of both format versions with symbolic S32 fields and solver-chosen structure",
+            "Bounded symbolic model checking of the transfer state machines (all payloads <= 8 bytes x all schedules of 5 "
+            "deliveries); bounded exhaustive exploration of catalogue products for the text codecs, whose values are realized at "
+            "C boundaries (StringIO, expat).",
+            "Trusted: CrossHair + z3; chunk size constant reduced to 4 in one obligation (the production value in another); "
+            "third-party llsd constructors run untraced.",
+            "DESIGN.md §1 C20"),
 }
 
 NOT_APPLICABLE = {
